@@ -387,6 +387,11 @@ class Program:
                     return self.const_value(mm, val, depth + 1)
                 if kind == "class":
                     return obj
+        if isinstance(node, ast.Call) and isinstance(node.func, ast.Name) and node.func.id in ("frozenset", "set", "tuple", "list") and len(node.args) <= 1 and not node.keywords:
+            if not node.args:
+                return set() if node.func.id in ("frozenset", "set") else ()
+            inner = self.const_value(m, node.args[0], depth + 1)
+            return set(inner) if node.func.id in ("frozenset", "set") else tuple(inner)
         if isinstance(node, (ast.Set, ast.Tuple, ast.List)):
             vals = [self.const_value(m, e, depth + 1) for e in node.elts]
             return set(vals) if isinstance(node, ast.Set) else tuple(vals)
